@@ -25,7 +25,7 @@ for d in sorted(glob.glob(os.path.join(here, "seeded", "*"))):
         re.sub(r"\s+", " ", meta.get("needs", ""))[:150].replace("|", "/"),
         ((", ".join(caught) + ": `" + "`, `".join(clauses) + "`") if caught else "**not caught**") + before))
 table = ("## 14. Seeded changes and which checks catch them\n\n"
-         "Written in seven rounds by independent sub-agents (one per property and round; two changes each in rounds 1-6 = 240, one each in round 7 = 20; the second round was\n"
+         "Written in seven rounds by independent sub-agents (one per property and round; two changes each in rounds 1-6 = 240, one each in round 7 plus six in a second batch = 26; the second round was\n"
          "asked for subtler changes, the third for the less prominent clauses, shared helpers and interactions between operations, the fourth for combinations of features, corner values, hidden state kept between calls and helper code in other packages, the fifth for thresholds, boundary arithmetic, Unicode and line endings, swallowed errors and version-specific branches, the sixth for asymmetries, non-strict comparators, error-message paths and first-call behaviour, the seventh - run at the start of the second session against the checks as committed - for plausible maintainer commits: caches, early returns, de-duplication, recovery code) that saw only the property text and a scratch worktree.  Each change compiles, passes the unedited suite, and comes with a demonstration test that fails with the change\n"
          "and passes without it (re-confirmed with tools/confirm_seeded.sh).  `tools/try_seeded.py` applies the patch to /repo, runs the\n"
          "quick check(s), restores /repo and writes result.json.  Where a check first missed a change it was strengthened (see the\n"
